@@ -584,7 +584,9 @@ def tok_roles(ctx):
       'String: input[span.start + 1 .. span.end - 1] (the characters between the quotes, a sub-slice of the input, never a built string: no escape processing); Number: the value is parsed from input[span]; text handed in as a parameter must come, together with the start, from one scanner call whose text is input[start .. position]. '
       'SLICE: every slice bound is a char boundary (see C01). TWS: the whitespace predicate (role: the char predicate guarding the advance in the skipper that runs before the dispatching character is read), evaluated over a finite partition of char, accepts SP, TAB, CR, LF and nothing that is not Unicode white space. MUNCH: in the symbolic-operator scanner the run is extended iff the longer slice is a registered operator; no other condition cuts it short (longest registered operator). '
       'WORDSCAN: the look-ahead that tests a word against the operator registry and the scanner that cuts the operator token consult character predicates with the same accepting set (sibling agreement over a finite partition of char). '
-      'CHARUNITS: a count-based step / counted loop over a character iterator is never given a byte quantity.',
+      'CHARUNITS: a count-based step / counted loop over a character iterator is never given a byte quantity. '
+      'BOOLWORD: a Function / Reference token is built for a scanned word only where the word compared unequal to true / True / false / False (the four words are booleans whatever follows them). '
+      'NUMSTART: the number scanner is entered for digits only.',
       not_decided='classification (longest registered operator, whole-word operators, name( as function, bool keywords) and strict monotonicity of spans across a whole input: these depend on registry contents and iteration values',
       assumptions=COMMON_ASSUME)
 def c10(ctx):
@@ -601,6 +603,7 @@ def c10(ctx):
     obs += r_token.rule_charunits(roles)
     obs += r_token.rule_wordscan(roles, reg_model(ctx))
     obs += r_token.rule_numstart(roles, tok_roles(ctx))
+    obs += r_token.rule_boolword(roles)
     obs += r_prec.rule_munch(roles, tok_roles(ctx).tm)
     return obs, {'analysed': {'slice_sites': len(sm.verdicts)}}
 
@@ -634,10 +637,11 @@ def c11(ctx):
 @prop('C02',
       'TPREC: the rows the built-in filler registers (read off its MIR by a value-set analysis: constants, tuples, vec! literals, forward iteration, tuple correlation kept) equal the documented BinaryExpression table of README.md (`in` at the beginWith level); SETTER => RIGHT, CALC => LEFT; no operator registered twice with different rows. '
       'WUNARY: every call path from the prefix builder to the infix loop crosses a body that consumes an opening delimiter (prefix binds tighter than every infix operator); a postfix operator applies to the primary just parsed. WPOSTFIX: the prefix operand is parsed by the postfix-attaching body (postfix binds tighter than prefix), and attaching depends only on registry membership of the current token. '
-      'WTERN: the branch building the conditional is control-dependent on the minimum-precedence parameter (`?` is left to the outermost level). '
+      'WTERN: the branch building the conditional sits behind a test of the minimum-precedence parameter against a constant that holds at 0 and at no positive value (`?` is left to the outermost level, whatever right binding power an operator recursed with). '
+      'WNOT-L: the key-less lookup of the current token\'s binding power is not reached behind a guard that lets the `not` of `x not OP y` through (for `not` it answers "no infix operator"), unless the false edge of a pure not-test dominates it. '
       'WTERN-R: the else branch of the conditional is parsed by a body from which the conditional builder is reachable without crossing an opening delimiter (chains nest to the right). '
       'WGATE: the recursion gate and the callee\'s continuation test are the same predicate on (next.left, right), or differ only at equality while left = 2p and right = 2p +- 1 make equality impossible (adjacent precedences cannot collide).',
-      not_decided='that the Pratt loop builds the right tree for every operator sequence (values of binding powers along unboundedly many iterations); the `x not OP y` rewrite (WNOT needs facts about the peeked token that no rule here establishes: not decided)',
+      not_decided='that the Pratt loop builds the right tree for every operator sequence (values of binding powers along unboundedly many iterations); the `x not OP y` rewrite beyond WNOT-L (that the pending negation is never dropped needs facts about the peeked token that no rule here establishes: not decided)',
       assumptions=COMMON_ASSUME)
 def c02(ctx):
     roles = parse_roles(ctx)
@@ -650,6 +654,7 @@ def c02(ctx):
     obs += r_parse.fallback(r_prec.rule_wtern, roles)
     obs += r_parse.fallback(r_prec.rule_wtern_right, roles)
     obs += r_parse.fallback(r_prec.rule_wgate, roles)
+    obs += r_parse.fallback(r_prec.rule_wnot_lookup, roles)
     obs += r_prec.rule_wassoc(ctx.prog)
     obs += [o for o in r_parse.fallback(r_prec.rule_wpostfix, roles) if '|gate|' not in o.key]
     # prefix < postfix binding presupposes that a sign is a token of its own (never glued to the digits by the lexer)
